@@ -120,3 +120,111 @@ func (i *Int64) Load() int64                        { return LoadInt64(&i.v) }
 func (i *Int64) Store(x int64)                      { StoreInt64(&i.v, x) }
 func (i *Int64) Add(d int64) int64                  { return AddInt64(&i.v, d) }
 func (i *Int64) CompareAndSwap(old, new int64) bool { return CompareAndSwapInt64(&i.v, old, new) }
+
+// ---- the rest of sync/atomic that a change to taskctl may start to use ----
+
+func SwapInt64(addr *int64, n int64) (old int64) {
+	vrt.AtomicOp(addr, "SwapInt64", func() uint64 { old = *addr; *addr = n; return uint64(n) })
+	return
+}
+
+func SwapUint32(addr *uint32, n uint32) (old uint32) {
+	vrt.AtomicOp(addr, "SwapUint32", func() uint64 { old = *addr; *addr = n; return uint64(n) })
+	return
+}
+
+func LoadUint64(addr *uint64) uint64 {
+	vrt.AtomicOp(addr, "LoadUint64", func() uint64 { return *addr })
+	return *addr
+}
+
+func StoreUint64(addr *uint64, val uint64) {
+	vrt.AtomicOp(addr, "StoreUint64", func() uint64 { *addr = val; return val })
+}
+
+func AddUint64(addr *uint64, delta uint64) (new uint64) {
+	vrt.AtomicOp(addr, "AddUint64", func() uint64 { *addr += delta; new = *addr; return *addr })
+	return
+}
+
+func SwapUint64(addr *uint64, n uint64) (old uint64) {
+	vrt.AtomicOp(addr, "SwapUint64", func() uint64 { old = *addr; *addr = n; return n })
+	return
+}
+
+func CompareAndSwapUint64(addr *uint64, old, new uint64) (swapped bool) {
+	vrt.AtomicOp(addr, "CompareAndSwapUint64", func() uint64 {
+		if *addr == old {
+			*addr = new
+			swapped = true
+		}
+		return *addr
+	})
+	return
+}
+
+// Uint32 / Uint64: the typed counterparts.
+type Uint32 struct{ v uint32 }
+
+func (i *Uint32) Load() uint32                        { return LoadUint32(&i.v) }
+func (i *Uint32) Store(x uint32)                      { StoreUint32(&i.v, x) }
+func (i *Uint32) Add(d uint32) uint32                 { return AddUint32(&i.v, d) }
+func (i *Uint32) Swap(x uint32) uint32                { return SwapUint32(&i.v, x) }
+func (i *Uint32) CompareAndSwap(old, new uint32) bool { return CompareAndSwapUint32(&i.v, old, new) }
+
+type Uint64 struct{ v uint64 }
+
+func (i *Uint64) Load() uint64                        { return LoadUint64(&i.v) }
+func (i *Uint64) Store(x uint64)                      { StoreUint64(&i.v, x) }
+func (i *Uint64) Add(d uint64) uint64                 { return AddUint64(&i.v, d) }
+func (i *Uint64) Swap(x uint64) uint64                { return SwapUint64(&i.v, x) }
+func (i *Uint64) CompareAndSwap(old, new uint64) bool { return CompareAndSwapUint64(&i.v, old, new) }
+
+func (i *Int32) Swap(x int32) int32 { return SwapInt32(&i.v, x) }
+func (i *Int64) Swap(x int64) int64 { return SwapInt64(&i.v, x) }
+func (b *Bool) Swap(x bool) bool {
+	n := int32(0)
+	if x {
+		n = 1
+	}
+	return SwapInt32(&b.v, n) != 0
+}
+
+// Value mirrors atomic.Value: every operation is one scheduling point; the state value is a counter of
+// stores (two stores of equal values are different states, which is merely conservative).
+type Value struct {
+	v   interface{}
+	gen uint64
+}
+
+func (v *Value) Load() (x interface{}) {
+	vrt.AtomicOp(v, "Value.Load", func() uint64 { x = v.v; return v.gen })
+	return
+}
+
+func (v *Value) Store(x interface{}) {
+	if x == nil {
+		panic("sync/atomic: store of nil value into Value")
+	}
+	vrt.AtomicOp(v, "Value.Store", func() uint64 { v.v = x; v.gen++; return v.gen })
+}
+
+func (v *Value) Swap(x interface{}) (old interface{}) {
+	if x == nil {
+		panic("sync/atomic: swap of nil value into Value")
+	}
+	vrt.AtomicOp(v, "Value.Swap", func() uint64 { old = v.v; v.v = x; v.gen++; return v.gen })
+	return
+}
+
+func (v *Value) CompareAndSwap(old, new interface{}) (swapped bool) {
+	vrt.AtomicOp(v, "Value.CompareAndSwap", func() uint64 {
+		if v.v == old {
+			v.v = new
+			v.gen++
+			swapped = true
+		}
+		return v.gen
+	})
+	return
+}
